@@ -5,7 +5,10 @@ C06, frame level: what ONE attempt (`run_request_once` = one call of `Connection
 `execute_raw_with_consistency` / `batch_with_consistency`) puts on the wire, and the client-side request timeout.
 Import-free (core only).
 
-  * QUERY (`scylla/src/network/connection.rs:882-…`): one QUERY frame; its answer is the attempt's outcome.
+  * QUERY without values (`scylla/src/network/connection.rs:882-…`): one QUERY frame; its answer is the attempt's outcome.
+  * QUERY WITH values (`scylla/src/client/session.rs:1424-1438`; the pager does the same): per attempt
+    `connection.prepare(statement)` (one PREPARE frame; error ⇒ the attempt fails with it, nothing else is sent) and
+    then `execute_raw_with_consistency` — the EXECUTE arm below.
   * EXECUTE (`connection.rs:1046-1147`): one EXECUTE frame; if it is answered `DbError::Unprepared` (`:1102-1105`) the
     statement is re-prepared (`reprepare`, `:695-745`: one PREPARE frame; error ⇒ the attempt fails with it; a different
     id ⇒ `RepreparedIdChanged`) and EXECUTE is sent ONCE more (`:1118-1133`); that answer is the outcome (a second
@@ -22,6 +25,8 @@ open ScyllaVerif.Retry ScyllaVerif.Exec
 /-- The kind of request; `batch pre`: `prepare_batch` sends `pre` PREPARE frames before the BATCH frame. -/
 inductive StmtKind where
   | query
+  /-- an unprepared statement with values: PREPARE then EXECUTE, in every attempt -/
+  | queryValues
   | execute
   | batch (pre : Nat)
   deriving DecidableEq, Repr, Inhabited
@@ -83,18 +88,27 @@ def batchLoop (a : Answers) (pre : Nat) : (rounds j : Nat) → AttemptFrames
       else ⟨[.stmt ans], some (.fail .repreparedIdMissingInBatch)⟩
     else ⟨[.stmt ans], some ans⟩
 
+/-- `execute_raw_with_consistency` (`connection.rs:1046-1147`): EXECUTE; after UNPREPARED the re-prepare (its PREPARE
+frame is answered by `a.prep p0`) and EXECUTE once more. -/
+def executeArm (a : Answers) (p0 : Nat) : AttemptFrames :=
+  let a0 := a.stmt 0
+  if isUnprepared a0 then
+    match a.prep p0 with
+    | .ok => ⟨[.stmt a0, .prepare .ok, .stmt (a.stmt 1)], some (a.stmt 1)⟩
+    | .idChanged => ⟨[.stmt a0, .prepare .idChanged], some (.fail .repreparedIdChanged)⟩
+    | .err e => ⟨[.stmt a0, .prepare (.err e)], some (.fail e)⟩
+  else ⟨[.stmt a0], some a0⟩
+
 /-- One attempt. -/
 def attempt (kind : StmtKind) (a : Answers) (rounds : Nat) : AttemptFrames :=
   match kind with
   | .query => ⟨[.stmt (a.stmt 0)], some (a.stmt 0)⟩
-  | .execute =>
-    let a0 := a.stmt 0
-    if isUnprepared a0 then
-      match a.prep 0 with
-      | .ok => ⟨[.stmt a0, .prepare .ok, .stmt (a.stmt 1)], some (a.stmt 1)⟩
-      | .idChanged => ⟨[.stmt a0, .prepare .idChanged], some (.fail .repreparedIdChanged)⟩
-      | .err e => ⟨[.stmt a0, .prepare (.err e)], some (.fail e)⟩
-    else ⟨[.stmt a0], some a0⟩
+  | .execute => executeArm a 0
+  | .queryValues =>
+    -- `connection.prepare` compares no id: any successful answer is taken
+    match a.prep 0 with
+    | .err e => ⟨[.prepare (.err e)], some (.fail e)⟩
+    | p => (executeArm a 1).push [.prepare p]
   | .batch pre =>
     let p := prepareBatch a pre 0
     match p.2 with
